@@ -680,12 +680,18 @@ func closeToken(idx, count, cpos, match int, pos map[int]int, line []rune, split
 }
 
 // newlines gives the indexes of all newline characters in the line.
+// The indexes are positions in the line (runes, not bytes), and a
+// last one is added for the newline that would terminate the line.
 func (l *Line) newlines() [][]int {
-	line := string(*l)
-	line += string(inputrc.Newline)
-	nl := regexp.MustCompile(string(inputrc.Newline))
+	indexes := make([][]int, 0)
 
-	return nl.FindAllStringIndex(line, -1)
+	for pos, char := range *l {
+		if char == inputrc.Newline {
+			indexes = append(indexes, []int{pos, pos + 1})
+		}
+	}
+
+	return append(indexes, []int{l.Len(), l.Len() + 1})
 }
 
 // returns bpos, epos ordered and true if either is valid.
